@@ -348,3 +348,163 @@ Fixpoint tn_sessions (rs : resets) (counting : bool) (limit : nat) (st : tstate)
 Definition run_from (counting : bool) (limit : nat) (st : tstate) (chunks : list bytes) : bytes * bytes :=
   let (outs, st') := session true counting limit (S (length chunks)) st chunks in
   (concat outs, concat (sent st')).
+
+(* ---- the pty child of the system transport (scrapli/transport/plugins/system/ptyprocess.py) ----
+   PtyProcess.close() and the parent part of PtyProcess.spawn() are translated from the source
+   (Gen_Lifecycle.gen_pty_close, gen_pty_spawn); isalive() / terminate() are modelled by hand. *)
+Inductive child :=
+| CRunning     (* the forked child runs *)
+| CExited      (* it has exited and nobody has waited for it: defunct, still in the process table *)
+| CReaped.     (* waitpid has collected it (self.terminated) *)
+
+(* what a PtyProcess object owns / knows: the child, the pty master fd, self.closed, self.flag_eof *)
+Record pty := mkPty { y_child : child; y_fd : bool; y_closed : bool; y_eof : bool }.
+
+Inductive pres :=
+| PDone
+| PRaised      (* PtyProcessError("Could not terminate the child.") *)
+| PBlocks.     (* never returns: isalive() uses the BLOCKING waitpid once flag_eof is set *)
+
+(* outside the object: does closing the master fd (SIGHUP) make the child exit; do the signals of
+   terminate(force=True) (SIGHUP, SIGCONT, SIGINT, SIGKILL) get rid of it *)
+Record penv := mkPE { hup_exits : bool; kill_works : bool }.
+
+Definition child_eqb (a b : child) : bool :=
+  match a, b with CRunning, CRunning | CExited, CExited | CReaped, CReaped => true | _, _ => false end.
+
+(* isalive(): terminated -> False; else waitpid(pid, 0 if flag_eof else WNOHANG).  None = blocks *)
+Definition isalive (s : pty) : pty * option bool :=
+  match y_child s with
+  | CReaped => (s, Some false)
+  | CExited => (mkPty CReaped (y_fd s) (y_closed s) (y_eof s), Some false)
+  | CRunning => if y_eof s then (s, None) else (s, Some true)
+  end.
+
+(* terminate(force=True): True when the child is gone (and reaped), False when it survives *)
+Definition terminate (E : penv) (s : pty) : pty * option bool :=
+  match isalive s with
+  | (s1, None) => (s1, None)
+  | (s1, Some false) => (s1, Some true)
+  | (s1, Some true) =>
+      if kill_works E then (mkPty CReaped (y_fd s1) (y_closed s1) (y_eof s1), Some true) else (s1, Some false)
+  end.
+
+Inductive pcond :=
+| PNotClosed    (* not self.closed *)
+| PIsAlive      (* self.isalive() *)
+| PEofSeen      (* self.flag_eof / self.eof() *)
+| PNotEofSeen.  (* not self.flag_eof *)
+
+Inductive pstmt :=
+| PSkip
+| PSeq (a b : pstmt)
+| PIf (c : pcond) (body : pstmt)
+| PDelFileobj         (* with suppress(AttributeError): del self.fileobj  — closes the master fd *)
+| PNop                (* time.sleep(...), self.fd = -1, self.pid = None *)
+| PMarkClosed         (* self.closed = True *)
+| PTerminateOrRaise.  (* if not self.terminate(force=True): raise PtyProcessError(...) *)
+
+Definition pcond_eval (c : pcond) (s : pty) : pty * option bool :=
+  match c with
+  | PNotClosed => (s, Some (negb (y_closed s)))
+  | PIsAlive => isalive s
+  | PEofSeen => (s, Some (y_eof s))
+  | PNotEofSeen => (s, Some (negb (y_eof s)))
+  end.
+
+Fixpoint prun (E : penv) (p : pstmt) (s : pty) : pty * pres :=
+  match p with
+  | PSkip | PNop => (s, PDone)
+  | PSeq a b => match prun E a s with
+                | (s1, PDone) => prun E b s1
+                | (s1, r) => (s1, r)
+                end
+  | PIf c body => match pcond_eval c s with
+                  | (s1, None) => (s1, PBlocks)
+                  | (s1, Some true) => prun E body s1
+                  | (s1, Some false) => (s1, PDone)
+                  end
+  | PDelFileobj =>
+      (mkPty (match y_child s with CRunning => if hup_exits E then CExited else CRunning | x => x end)
+             false (y_closed s) (y_eof s), PDone)
+  | PMarkClosed => (mkPty (y_child s) (y_fd s) true (y_eof s), PDone)
+  | PTerminateOrRaise => match terminate E s with
+                         | (s1, None) => (s1, PBlocks)
+                         | (s1, Some true) => (s1, PDone)
+                         | (s1, Some false) => (s1, PRaised)
+                         end
+  end.
+
+(* PtyProcess.close() as it is in the source now *)
+Definition pty_close_now : pstmt :=
+  PIf PNotClosed
+      (PSeq PDelFileobj (PSeq PNop (PSeq (PIf PIsAlive PTerminateOrRaise) (PSeq PNop (PSeq PMarkClosed PNop))))).
+
+Definition pty_released (s : pty) : bool := child_eqb (y_child s) CReaped && negb (y_fd s) && y_closed s.
+
+(* the region in which close() is total: when an EOF has been read while the child still runs, closing the
+   master (SIGHUP) makes the child exit (true of ssh).  Outside it — a child that closed its tty, ignores SIGHUP
+   and keeps running — the blocking waitpid of isalive() waits for the child (confirmed on the real code) *)
+Definition in_region (E : penv) (s : pty) : bool :=
+  negb (y_eof s && child_eqb (y_child s) CRunning && negb (hup_exits E)).
+
+(* decided by running close() from every state (the state space is finite) *)
+Definition all_children := [CRunning; CExited; CReaped].
+Definition all_bools := [true; false].
+Definition all_pty : list pty :=
+  flat_map (fun c => flat_map (fun f => flat_map (fun cl => map (fun e => mkPty c f cl e) all_bools) all_bools) all_bools) all_children.
+Definition all_penv : list penv := flat_map (fun h => map (fun k => mkPE h k) all_bools) all_bools.
+
+Definition close_case_ok (p : pstmt) (E : penv) (s : pty) : bool :=
+  if y_closed s then
+    (* a closed object: close() does nothing (and cannot raise) *)
+    match prun E p s with (s', PDone) => child_eqb (y_child s') (y_child s) && Bool.eqb (y_fd s') (y_fd s) && y_closed s' | _ => false end
+  else if in_region E s then
+    match prun E p s with
+    | (s', PDone) => pty_released s'
+    | (_, PRaised) => negb (kill_works E)
+    | (_, PBlocks) => false
+    end
+  else true.
+
+Definition pty_close_ok (p : pstmt) : bool :=
+  forallb (fun E => forallb (close_case_ok p E) all_pty) all_penv.
+
+(* the full statement: from every state of an un-closed object close() returns with the child reaped *)
+Definition pty_close_full (p : pstmt) : Prop :=
+  forall E s, y_closed s = false -> exists s', prun E p s = (s', PDone) /\ pty_released s' = true.
+
+(* parent part of PtyProcess.spawn() after pty.fork() *)
+Inductive satom :=
+| SWrap        (* inst = cls(pid, fd): from here on a PtyProcess object owns the child and the master fd *)
+| SPipe        (* os.close / os.read on the exec-error pipe *)
+| SExecCheck   (* if len(exec_err_data) != 0: ... raise <the child's exec error> *)
+| SMayRaise    (* inst.setwinsize(...) with a re-raising handler, _setonlcr(fd, True) *)
+| SReturn.     (* return inst *)
+
+Definition can_raise (a : satom) : bool := match a with SExecCheck | SMayRaise => true | _ => false end.
+
+(* [fails]: for each statement whether it raises (only statements that can raise do).
+   result: (pid and fd are owned by a PtyProcess object, spawn raised) *)
+Fixpoint srun (prog : list satom) (fails : list bool) (owned : bool) : bool * bool :=
+  match prog with
+  | [] => (owned, false)
+  | a :: r =>
+      if can_raise a && hd false fails then (owned, true)
+      else match a with
+           | SReturn => (owned, false)
+           | SWrap => srun r (tl fails) true
+           | _ => srun r (tl fails) owned
+           end
+  end.
+
+Fixpoint spawn_ok_from (owned : bool) (prog : list satom) : bool :=
+  match prog with
+  | [] => owned
+  | SWrap :: r => spawn_ok_from true r
+  | SReturn :: _ => owned
+  | a :: r => (negb (can_raise a) || owned) && spawn_ok_from owned r
+  end.
+Definition spawn_ok (prog : list satom) : bool := spawn_ok_from false prog.
+
+Definition pty_spawn_now : list satom := [SWrap; SPipe; SPipe; SPipe; SExecCheck; SMayRaise; SMayRaise; SReturn].
